@@ -398,4 +398,11 @@ def rm_no_process_lifetime_results(ctx: Ctx) -> None:
     state_rule(ctx)
 
 
-RULES = [r1_generator_pairing, r2_replay_agreement, r3_lookup_chain, r4_export, r5_who_may_write, r6_macro_arguments_in_caller_scope, r7_symbol_values_stored_verbatim, rb_binding_agreement, rm_no_process_lifetime_results]
+def ru_names_bound(ctx: Ctx) -> None:
+    """a local read but never bound raises NameError for every input that reaches the statement (shared rule, names.py)"""
+    from ..names import names_rule
+
+    names_rule(ctx)
+
+
+RULES = [r1_generator_pairing, r2_replay_agreement, r3_lookup_chain, r4_export, r5_who_may_write, r6_macro_arguments_in_caller_scope, r7_symbol_values_stored_verbatim, rb_binding_agreement, rm_no_process_lifetime_results, ru_names_bound]
